@@ -8,6 +8,7 @@ import (
 	"context"
 	"encoding/json"
 	"fmt"
+	"github.com/boltdb/bolt"
 	"math/rand/v2"
 	"os"
 	"path/filepath"
@@ -236,11 +237,13 @@ func (ClusterWorld) Run(t *testing.T, scAny any, chooser simrt.Chooser, keepLog 
 	dir := filepath.Join(base, fmt.Sprintf("verif-x-%d-%d", os.Getpid(), runCounter))
 	_ = os.MkdirAll(dir, 0o755)
 	defer os.RemoveAll(dir)
-	return kit.Execute(t, chooser, keepLog, 600_000, func(run *kit.Run) {
+	res := kit.Execute(t, chooser, keepLog, 600_000, func(run *kit.Run) {
 		w := &World{run: run, sc: sc, cfg: &sc.Cfg, dir: dir, faultIdx: map[string]int{}, faultPlan: map[string]string{},
 			pendingInstance: map[string]string{}, pendingSince: map[string]int{}, everRecorded: map[string]bool{}, cniInFlight: map[string]int{}, addInFlight: map[string]int{}, suspectReport: map[string]bool{}, addFailed: map[string]bool{}, addOK: map[string]bool{}, delComplete: map[string]bool{}, rtSeen: map[string]rtStamps{}, unboundAt: map[string]time.Time{}, reportLost: map[string]bool{}, delProcessed: map[string]bool{}, trigger: make(chan struct{}, 1)}
 		w.main()
 	})
+	closeDBs()
+	return res
 }
 
 func (ClusterWorld) Shrink(scAny any) []any {
@@ -456,6 +459,7 @@ func (w *World) startDaemon() error {
 	if err != nil {
 		return err
 	}
+	trackDB(res)
 	if db := storage.BoltDBForSim(res); db != nil {
 		db.NoSync = true
 	}
@@ -464,6 +468,7 @@ func (w *World) startDaemon() error {
 	if err != nil {
 		return err
 	}
+	trackDB(podDB)
 	if db := storage.BoltDBForSim(podDB); db != nil {
 		db.NoSync = true
 	}
@@ -582,4 +587,35 @@ func copyFile(src, dst string) error {
 		return err
 	}
 	return os.WriteFile(dst, b, 0o600)
+}
+
+// openDBs are the bolt databases opened during the current run; they are closed after the run
+// (outside the simulation), otherwise file descriptors and mapped tmpfs pages pile up over the
+// hundred thousand runs of a thorough batch.
+var openDBs []*bolt.DB
+
+func trackDB(st storage.Storage) {
+	if db := storage.BoltDBForSim(st); db != nil {
+		openDBs = append(openDBs, db)
+	}
+}
+
+func closeDBs() {
+	if os.Getenv("VERIF_NO_CLOSE") != "" {
+		openDBs = nil
+		return
+	}
+	for _, db := range openDBs {
+		done := make(chan struct{})
+		go func() { _ = db.Close(); close(done) }()
+		select {
+		case <-done:
+		case <-time.After(20 * time.Millisecond):
+			// a task killed inside a page write still holds bolt's lock: drop the descriptor at least
+			if f := db.SimFile(); f != nil {
+				_ = f.Close()
+			}
+		}
+	}
+	openDBs = nil
 }
